@@ -14,6 +14,10 @@ Case:  kind cap ilen ini... ops...
        8                 clear()
 Observation: one record after the constructor and after every op:
   exc size bytes.. terminator maxSize(-1 unbounded) errno==ERANGE guards-intact
+The implementation runs every case twice on fresh builders: the records of a CLEAN pass (errno = 0 before every call; this
+is what the Coq model predicts, errno field = "this call signalled a truncation"), the marker -99, then the records of a
+STALE-ERRNO pass (errno = ERANGE before the constructor and before every call, as for a caller who never resets errno after
+an earlier truncation; the errno field of these records is not compared, everything else is judged against the shadow string).
 
 The oracle is a shadow string in python (independent of the Coq model): it replays the operations on a python
 list, truncating only for the fixed kind, and compares every record of the implementation.
@@ -34,10 +38,13 @@ RULE = ('cases = (kind in {sbo, std::string, fixed array, spilling array}, capac
         'std::string, fixed and spilling arrays of capacity 0/1/8/64/L..L+2) and every flavour (bytes, cstr, run, resize, literal format, '
         '%s, literal+%s, %d, %c, %%), and 2^16/2^31/2^32/2^63 + room (+-1) runs/resizes on fixed arrays; the random stream draws a length '
         'from {255..257, 300, 319, 320, 511..513, 575, 576, 256+room(+-1), 512+room(+1)} with probability 0.06; '
+        'EVERY case is run twice on the implementation: with errno = 0 before each call (compared with the model, errno flag judged) and with a '
+        'STALE errno = ERANGE before the constructor and each call (text, size, terminator, maxSize, canaries, exceptions judged; errno flag not); '
         'non-trivial = at least one op changed the text or was truncated; distinct = distinct case tuples')
 TRUSTED_BASE = ['std::string (append/resize/reserve/c_str/operator[]) modelled as an unbounded list',
                 'vsnprintf modelled on the already formatted text: writes min(len, cap-1) chars + NUL when cap > 0, returns len',
-                'props/C17.py shadow string (oracle on the implementation)',
+                'props/C17.py shadow string (oracle on the implementation); the stale-errno pass of the harness is judged by this oracle only '
+                '(the model has no errno input: a correct builder never reads errno)',
                 'tools/consts/C17.py (layout constants of StringBuilder)']
 ASSUMPTIONS = ['memory does not run out (builders that may spill: text lengths far below std::string::max_size())',
                'a formatted expansion is shorter than INT_MAX and its literal parts contain neither % nor NUL',
@@ -201,10 +208,12 @@ class Shadow:
         return 0, False
 
 
-def records(obs, nrec):
-    """split the implementation's observation into records"""
+STALE_MARK = -99      # harness/h_c17.cpp: separates the records of the clean pass from those of the stale-errno pass
+
+
+def records(obs, nrec, p=0):
+    """parse nrec records of the implementation's observation starting at p -> (records, end position) or None"""
     out = []
-    p = 0
     for _ in range(nrec):
         if p + 2 > len(obs):
             return None
@@ -213,7 +222,31 @@ def records(obs, nrec):
             return None
         out.append((exc, n, obs[p + 2:p + 2 + n], obs[p + 2 + n], obs[p + 3 + n], obs[p + 4 + n], obs[p + 5 + n]))
         p += 6 + n
-    return out if p == len(obs) else None
+    return out, p
+
+
+def split_obs(obs, nrec):
+    """-> (records of the clean pass, records of the stale-errno pass) or None"""
+    r = records(obs, nrec)
+    if r is None:
+        return None
+    clean, p = r
+    if p >= len(obs) or obs[p] != STALE_MARK:
+        return None
+    r = records(obs, nrec, p + 1)
+    if r is None or r[1] != len(obs):
+        return None
+    return clean, r[0]
+
+
+def obs_equal(case, impl, model):
+    """The model predicts the records of the clean pass (errno = 0 on entry of every operation).  The records of the
+    stale-errno pass behind the marker are judged by the oracle only: their errno field says nothing (errno was ERANGE
+    before the call) and is excluded from every comparison; text, size, terminator, maxSize, canaries and exceptions
+    of that pass must equal the shadow string's - and therefore, by the oracle on the clean pass plus this
+    correspondence, the model's."""
+    m = len(model)
+    return len(impl) > m and impl[m] == STALE_MARK and impl[:m] == model
 
 
 OPN = {1: 'append', 2: 'append-cstr', 3: 'append-run', 4: 'append-int', 5: 'append-uint', 6: 'format', 7: 'resize', 8: 'clear', 0: 'ctor'}
@@ -222,9 +255,20 @@ KINDN = {0: 'sbo', 1: 'string', 2: 'fixed', 3: 'spill'}
 
 def oracle(c, obs):
     kind, cap, ini, ops = decode(c)
-    recs = records(obs, len(ops) + 1)
-    if recs is None:
+    parts = split_obs(obs, len(ops) + 1)
+    if parts is None:
         return ['observation-malformed']
+    sig = judge_pass(kind, cap, ini, ops, parts[0], False)
+    if not sig:
+        sig = judge_pass(kind, cap, ini, ops, parts[1], True)
+    return sig
+
+
+def judge_pass(kind, cap, ini, ops, recs, stale):
+    """stale: the pass in which errno was ERANGE before every call.  The content of a builder must not depend on what
+    an EARLIER operation (of this or another builder) left in errno, so everything but the errno field is judged as in
+    the clean pass; signatures get the suffix :stale-errno."""
+    sfx = ':stale-errno' if stale else ''
     sh = Shadow(kind, cap, ini)
     kn = KINDN.get(kind, 'spill')
     for i, rec in enumerate(recs):
@@ -234,7 +278,7 @@ def oracle(c, obs):
         else:
             wexc, cut = sh.apply(ops[i - 1])
             on = OPN[ops[i - 1][0]]
-        tagk = '%s-%s' % (kn, on)
+        tagk = '%s-%s%s' % (kn, on, sfx)
         if guard != 1:
             return ['wrote-outside-buffer:' + tagk]
         if exc != wexc:
@@ -253,7 +297,7 @@ def oracle(c, obs):
             return ['size-is-not-strlen:' + tagk]
         if mx != sh.max_size():
             return ['maxsize-differs:' + tagk]
-        if er != (1 if cut else 0):
+        if not stale and er != (1 if cut else 0):
             return [('erange-missing:' if cut else 'erange-spurious:') + tagk]
     return []
 
@@ -303,7 +347,7 @@ def describe(c):
             ps.append('resize(%d,%r)' % (o[1] % TWO64, chr(o[2] % 256)))
         else:
             ps.append('clear()')
-    return hd + ': ' + '; '.join(ps)
+    return hd + ': ' + '; '.join(ps) + '   [run twice: errno = 0 / stale errno = ERANGE before every call]'
 
 
 # ------------------------------------------------------------------------------------------------
